@@ -222,7 +222,8 @@ def _worker(shard):
         if c["kind"] == "text":
             out.append(res[id(c)])
         else:
-            out.append(_run_nop(c["pats"]))
+            # several nop_regexes configurations one after the other in ONE process, all running the same statement texts
+            out.append([_run_nop(p_) for p_ in c["group"]])
     return out
 
 
@@ -267,6 +268,12 @@ def _judge_text(chk, case, res, count_rep, run_rep):
         problems.append(f"after the caller's `{case.get('finish')}` ({res['finish'][0]}; one-by-one: {res['finish'][1]}) the table is {_short(res['real_table2'])} ≠ {_short(want_table2)}")
     # the twin must agree with the generator's knowledge, otherwise the harness itself is wrong
     if res["twin_table"] != want_table or res["twin_table2"] != want_table2 or [(r[0], r[1]) for r in res["twin"]] != want_results:
+        if not problems and case.get("oracle", True):
+            # execute_string gives what the statements mean, executing them one by one does not: the two differ
+            chk.violation(f"execute_string({case['text']!r}) ≠ one-by-one execution: through execute_string the results are {_short(real_res)} and the table "
+                          f"{_short(res['real_table'])} (what the statements mean), executed one by one with cursor.execute: results {_short([(r[0], r[1]) for r in res['twin']])}, "
+                          f"table {_short(res['twin_table'])}", desc, broken="C16_exec_string_partial (twin-instance comparison: one-by-one side deviates)")
+            return
         chk.violation(f"harness oracle disagrees with one-by-one execution on `{case['text']}`: twin table {_short(res['twin_table'])} results {_short(res['twin'])}; "
                       f"expected {_short(want_table)} {_short(want_results)}", desc, broken="harness oracle (C16 generator)", failing_input=False)
         return
@@ -511,14 +518,26 @@ def _gen(rnd, tid, force):
             effects.append(("rows", [[("str", a), ("str", b)]]))
             tbl_ops.append(None)
         else:
-            st, ef = rnd.choice([("select 1 /* in ; side */ , 2", ("rows", [[("int", 1), ("int", 2)]])),
+            st, ef = rnd.choice([("select regexp_replace('a.b.c', $$\\.$$, '-'), regexp_substr('ab12', $$[0-9]+$$)", ("rows", [[("str", "a-b-c"), ("str", "12")]])),
+                                 ("select $$x$$ || 'y', upper($$ab$$), regexp_like('abc', $$a.c$$)", ("rows", [[("str", "xy"), ("str", "AB"), ("bool", True)]])),
+                                 ("select split($$a,b$$, $$,$$)[1], parse_json($${\"a\":1}$$):a, length($$a\\tb$$)", ("rows", [[("str", '"b"'), ("str", "1"), ("int", 4)]])),
+                                 ("select to_date($$2020-01-02$$), regexp_replace($$x.y$$, $$\\.$$, $$\\\\$$)", ("rows", [[("str", "2020-01-02"), ("str", "x\\y")]])),
+                                 ("select 1 /* in ; side */ , 2", ("rows", [[("int", 1), ("int", 2)]])),
                                  ("select count(*) -- c ;\n from t", ("rows", [[("int", len(table))]]))])
             stmts.append(st)
             effects.append(ef)
             tbl_ops.append(None)
         flags.append("o")
     stmts = [both_sides(x, rnd) for x in stmts]
-    bom = force is None and not tx and not dollar and rnd.random() < 0.04
+    indented = force is None and not dollar and rnd.random() < 0.12
+    if indented:
+        # a script written as an indented block: EVERY line starts with the same margin, also the continuation lines of multi-line
+        # literals and `$$` strings — the margin inside a literal is data (judged against the one-by-one twin, which gets the same text)
+        i_ = tid * 100 + 90
+        stmts.append(rnd.choice([f"insert into t (id, v) values ({i_}, 'first line\n  second line\nthird')", f"insert into t values ({i_}, $$one\ntwo\n\n  three$$)"]))
+        flags.append("o"); effects.append(None); tbl_ops.append(None)
+        stmts = [x.replace("\n", "\n    ") for x in stmts]
+    bom = force is None and not tx and not dollar and not indented and rnd.random() < 0.04
     if bom:
         # a byte order mark at the very start of the text is not white space for the tokenizer: the first statement does not parse —
         # through execute_string and one by one alike (nothing is executed either way)
@@ -526,13 +545,15 @@ def _gen(rnd, tid, force):
         flags[0], effects[0], tbl_ops[0] = "p", None, None
         table.clear()
     parts = [rnd.choice(LEADS) if not bom else ""]
+    if indented:
+        parts = ["    "]
     for j, s in enumerate(stmts):
         parts.append(s)
         if j < len(stmts) - 1:
-            parts.append(rnd.choice(SEPS))
-    parts.append("" if stmts[-1] == "select 'unterminated" else rnd.choice(TAILS))
+            parts.append(rnd.choice(SEPS) if not indented else rnd.choice([";\n    ", " ;\n    ", ";\n\n    "]))
+    parts.append("" if stmts[-1] == "select 'unterminated" else rnd.choice(TAILS) if not indented else rnd.choice(["", ";", ";\n"]))
     return {"kind": "text", "tid": tid, "text": "".join(parts), "stmts": stmts, "flags": "".join(flags), "effects": effects, "tbl_ops": tbl_ops,
-            "final": sorted(table.items()), "cls": rnd.choice(["tuple", "tuple", "dict"]), "rc": rnd.random() < 0.9, "finish": rnd.choice(["commit", "rollback"]), "rm": rnd.random() < 0.4, "oracle": not dollar}
+            "final": sorted(table.items()), "cls": rnd.choice(["tuple", "tuple", "dict"]), "rc": rnd.random() < 0.9, "finish": rnd.choice(["commit", "rollback"]), "rm": rnd.random() < 0.4, "oracle": not dollar and not indented}
 
 
 def _execute(chk, cases):
@@ -552,7 +573,8 @@ def _execute(chk, cases):
             if c["kind"] == "text":
                 _judge_text(chk, c, r, *rep_of[id(c)])
             else:
-                nop_results[repr(c["pats"])] = (c["pats"], r)
+                for p_, r_ in zip(c["group"], r):
+                    nop_results[repr(p_)] = (p_, r_)
     if nop_results:
         base = nop_results[repr(None)][1]
         for pats, r in nop_results.values():
@@ -567,7 +589,7 @@ def run(chk) -> None:
                 "comments, 2 of 5 texts with a statement that fails at execution resp. does not parse at a random position, tuple and dict cursors, return_cursors "
                 "on/off; 15 nop pattern sets (5 of them with back-references / inline flags / named or conditional groups in a later pattern) × 32 commands (4 of them reference session variables: matched only after inlining / undefined reference raises first), each after COMMENT ON + ALTER … SET COMMENT with a full state dump (rows, tables, comments, columns) before and after (plain execute, with parameters) × 8 execute_string texts.  non-trivial = distinct text with ≥ 2 statements")
     gen_ties(chk)
-    cases = gen_cases(chk) + [{"kind": "nop", "pats": p} for p in NOP_SETS]
+    cases = gen_cases(chk) + [{"kind": "nop", "group": NOP_SETS[k::4]} for k in range(4)]
     _execute(chk, cases)
     chk.samples = [{"text": c["text"], "flags": c["flags"]} for c in cases[3:8] if c["kind"] == "text"]
     chk.trusted += ["sqlglot: statement-level parse→generate round trip preserves meaning (NOT modelled; covered only by the twin-database comparison)",
@@ -585,6 +607,6 @@ def replay(chk, case) -> None:
         c["tbl_ops"] = [None if t is None else tuple(t) for t in (case.get("tbl_ops") or [None] * len(case["stmts"]))]
         _execute(chk, [c])
     elif case.get("kind") == "nop":
-        _execute(chk, [{"kind": "nop", "pats": None}, {"kind": "nop", "pats": case["pats"]}])
+        _execute(chk, [{"kind": "nop", "group": [None] + [p_ for p_ in NOP_SETS if p_]}])
     else:
         chk.violation("engine-model disagreement replays are re-run by the full check", case, broken="engine tie", failing_input=False)
